@@ -45,7 +45,7 @@ def gen_case(rng, tier, small=False):
             ops.append(["update_dict", s, [[k, None] for k in rng.sample(range(nkeys), rng.randrange(0, min(4, nkeys) + 1))]])
         elif x < 0.76:
             k = rng.randrange(nkeys)
-            ops.append(["ngram", s, k, rng.choice([1, 2, 3, max(len(keys[k]), 1), len(keys[k]) + 1])])
+            ops.append(["ngram", s, k, rng.choice([1, 2, 3, max(len(keys[k]), 1), len(keys[k]) + 1, 255, 256, 257, 65536, 2**32 + 1])])
         elif x < 0.80:
             ops.append(["saveload", s])
         else:
